@@ -118,7 +118,11 @@ func (r *rtpRecv) decode(b []byte) error {
 	r.rest = rest
 	return err
 }
-func (r *rtpRecv) snap() string { return fmt.Sprintf("%s body=%x", r.p.String(), r.p.Body) }
+func (r *rtpRecv) snap() string {
+	p := r.p
+	return fmt.Sprintf("%s body=%x fields=%v/%v/%v/%v/%v/%v/%v/%v/%v/%v/%v", p.String(), p.Body, p.ID, p.Flag, p.Seq, p.Sim, p.LogicChannel,
+		p.DataType, p.SubcontractType, p.Timestamp, p.LastIFrameInterval, p.LastFrameInterval, p.DataBodyLen)
+}
 
 type target struct {
 	name     string
@@ -342,9 +346,14 @@ func init() {
 				if len(bodies) > 12 {
 					bodies = bodies[:12]
 				}
-			case "jt1078.Decode":
-				for i := 0; i < 6; i++ {
-					bodies = append(bodies, randRtp(r))
+			case "jt1078.Decode": // one short packet per data type (video I/P/B, audio, transparent, reserved)
+				want := []int{0, 1, 2, 3, 4, 9}
+				for len(want) > 0 {
+					p := randRtp(r)
+					if int(p[15]>>4) == want[0] && len(p) < 80 {
+						bodies = append(bodies, p)
+						want = want[1:]
+					}
 				}
 			default:
 				bodies = append(append([][]byte{}, caps[tg.id]...), sim[tg.id]...)
@@ -410,8 +419,20 @@ func init() {
 		distinct := map[string]bool{}
 		var samples []any
 		seenSig := map[string]int{}
-		// seeds per target for the history test (the previous body of the same target)
+		// predecessors for the history test: the valid seeds of the same target (all of them for a seed
+		// case, one in rotation for a mutant) and the previously accepted body
 		last := map[string][]byte{}
+		seedsOf := map[string][][]byte{}
+		if len(a) > 2 {
+			readND(a[2], func(i int, raw []byte) error {
+				var c c03Case
+				if jsonUnmarshal(raw, &c) == nil {
+					k := fmt.Sprintf("%s/v%d/d%d", c.T, c.Ver, c.Dialect)
+					seedsOf[k] = append(seedsOf[k], c.Body)
+				}
+				return nil
+			})
+		}
 		err := readND(a[0], func(i int, raw []byte) error {
 			var c c03Case
 			if err := jsonUnmarshal(raw, &c); err != nil {
@@ -473,13 +494,26 @@ func init() {
 			if !base.err {
 				last[key] = append([]byte{}, c.Body...)
 			}
+			var preds [][]byte
 			if has {
+				preds = append(preds, prev)
+			}
+			skey := fmt.Sprintf("%s/v%d/d%d", c.T, c.Ver, c.Dialect)
+			if ss := seedsOf[skey]; len(ss) > 0 {
+				if c.Kind == "seed" {
+					preds = append(preds, ss...)
+				} else {
+					preds = append(preds, ss[n%len(ss)])
+				}
+			}
+			for _, pb := range preds {
 				r := tg.mk(v, d)
-				runDecode(r, exact(prev))
+				runDecode(r, exact(pb))
 				again := runDecode(r, exact(c.Body))
 				if again.String() != base.String() {
 					report(fmt.Sprintf("depends-on-earlier-parse %s", key),
-						fmt.Sprintf("fresh vs reused receiver (after %x): %s", prev, diffWindow(base.String(), again.String())))
+						fmt.Sprintf("fresh vs reused receiver (after %x): %s", pb, diffWindow(base.String(), again.String())))
+					break
 				}
 			}
 			return nil
